@@ -7,8 +7,8 @@ import LettreVerif.Proofs.Builder
 the grammar's `phrase` up to the ` <` that follows.  `dotAtom_or_obs` … `oneMailbox_named`: a dot-atom address, bare
 or in angle brackets after a name, is read as that local part and domain.  `parse1_show1`, `parseList_showList`: a
 displayed mailbox / list of mailboxes parses back to the same addresses in the same order, whatever the names
-(`emails_round_trip`: the hypothesis of C01's refinement theorem).  The class of addresses (`GoodAddr`) excludes
-quoted local parts and domain literals; `Mailbox.addrClassB` decides its grammar part and the correspondence check
+(`emails_round_trip`: the hypothesis of C01's refinement theorem).  The class of addresses (`GoodAddr`): the local
+part a dot-atom or a quoted string (kept verbatim by the grammar), the domain a dot-atom or a bracketed literal; `Mailbox.addrClassB` decides its grammar part and the correspondence check
 reports, for every real mailbox, whether it is in the class.
 -/
 namespace LV.PegProof
@@ -180,26 +180,27 @@ inductive QBody : List Char → List Char → Prop
 
 theorem unit_len (k : List Char) (c : Char) (h : QUnit k c) : 1 ≤ k.length := by cases h <;> simp
 
-theorem many_qitem (rest : List Char) : ∀ (b s : List Char), QBody b s → ∀ (fuel : Nat), b.length < fuel →
-    ∃ xs, manyF qitem fuel (b ++ '"' :: rest) = some (xs, '"' :: rest) ∧ xs.flatten = cfg false s := by
+theorem many_qitem (rest w : List Char) (hw : ∀ c ∈ w, isWsp c = true) : ∀ (b s : List Char), QBody b s →
+    ∀ (fuel : Nat), b.length < fuel →
+    ∃ xs, manyF qitem fuel (b ++ (w ++ '"' :: rest)) = some (xs, w ++ '"' :: rest) ∧ xs.flatten = cfg false s := by
   intro b s hb
   induction hb with
   | nil =>
     intro fuel hf
     obtain ⟨k, rfl⟩ : ∃ k, fuel = k + 1 := ⟨fuel - 1, by omega⟩
-    exact ⟨[], manyF_stop _ _ _ (qitem_stop [] rest (by simp)), rfl⟩
-  | unit w k c b s hw hk _ ih =>
+    exact ⟨[], manyF_stop _ _ _ (qitem_stop w rest hw), rfl⟩
+  | unit w0 k c b s hw0 hk _ ih =>
     intro fuel hf
     obtain ⟨f, rfl⟩ : ∃ f, fuel = f + 1 := ⟨fuel - 1, by omega⟩
-    have hx := qitem_unit w k (b ++ '"' :: rest) c hw hk
+    have hx := qitem_unit w0 k (b ++ (w ++ '"' :: rest)) c hw0 hk
     have hkl := unit_len k c hk
     have hcw := unit_char_not_wsp k c hk
     obtain ⟨xs, hm, hfl⟩ := ih f (by simp at hf; omega)
-    refine ⟨(optToList w.head? ++ [c]) :: xs, ?_, ?_⟩
-    · have e : w ++ k ++ b ++ '"' :: rest = w ++ k ++ (b ++ '"' :: rest) := by simp
+    refine ⟨(optToList w0.head? ++ [c]) :: xs, ?_, ?_⟩
+    · have e : w0 ++ k ++ b ++ (w ++ '"' :: rest) = w0 ++ k ++ (b ++ (w ++ '"' :: rest)) := by simp
       rw [e, manyF_step qitem f _ _ _ hx (by simp; omega), hm]
       rfl
-    · rw [cfg_ws w (c :: s) hw (Or.inr ⟨c, s, rfl, hcw⟩), cfg_cons_nows false c s hcw]
+    · rw [cfg_ws w0 (c :: s) hw0 (Or.inr ⟨c, s, rfl, hcw⟩), cfg_cons_nows false c s hcw]
       simp [hfl]
 
 /-- Unicode white space skipped before the closing quote: SP / HTAB are white space -/
@@ -212,19 +213,18 @@ theorem uws_wsp (w rest : List Char) (hw : ∀ c ∈ w, isWsp c = true) : uws (w
   have := many_sat isUWs w ('"' :: rest) hu (Or.inr ⟨'"', rest, rfl, by decide⟩)
   simp [uws, pmap, this]
 
-/-- **a quoted string is read back**: the reader consumes exactly `"body"` and returns the text it stands for, runs of
-    blanks reduced to their first blank -/
-theorem quotedString_body (b s rest : List Char) (hb : QBody b s) :
-    quotedString opts ('"' :: b ++ '"' :: rest) = some (cfg false s, rest) := by
-  obtain ⟨xs, hm, hfl⟩ := many_qitem rest b s hb ((b ++ '"' :: rest).length + 1) (by simp; omega)
-  have hmany : many qitem (b ++ '"' :: rest) = some (xs, '"' :: rest) := hm
-  have hj : just '"' ('"' :: (b ++ '"' :: rest)) = some ('"', b ++ '"' :: rest) := by simp [just, sat]
+/-- **a quoted string is read back**: the reader consumes exactly `"body"` (white space before the closing quote is
+    skipped) and returns the text the body stands for, runs of blanks reduced to their first blank -/
+theorem quotedString_body (b s w rest : List Char) (hb : QBody b s) (hw : ∀ c ∈ w, isWsp c = true) :
+    quotedString opts ('"' :: (b ++ (w ++ '"' :: rest))) = some (cfg false s, rest) := by
+  obtain ⟨xs, hm, hfl⟩ := many_qitem rest w hw b s hb ((b ++ (w ++ '"' :: rest)).length + 1) (by simp; omega)
+  have hmany : many qitem (b ++ (w ++ '"' :: rest)) = some (xs, w ++ '"' :: rest) := hm
+  have hj : just '"' ('"' :: (b ++ (w ++ '"' :: rest))) = some ('"', b ++ (w ++ '"' :: rest)) := by simp [just, sat]
   have hj2 : just '"' ('"' :: rest) = some ('"', rest) := by simp [just, sat]
-  have hu := uws_wsp [] rest (by simp)
-  simp only [List.nil_append] at hu
+  have hu := uws_wsp w rest hw
   have hq : quotedString opts = pmap (fun (((_, xs), _), _) => xs.flatten) (seq (seq (seq (just '"') (many qitem)) uws) (just '"')) := rfl
   rw [hq]
-  simp only [pmap, seq, List.cons_append, hj, hmany, hu, hj2, Option.map_some, hfl]
+  simp only [pmap, seq, hj, hmany, hu, hj2, Option.map_some, hfl]
 
 theorem qbody_cons_ws (c : Char) (b s : List Char) (hc : isWsp c = true) (hb : QBody b s) (hne : s ≠ []) :
     QBody (c :: b) (c :: s) := by
@@ -309,7 +309,7 @@ theorem quoted_name_read_back (s rest : List Char) (h : s.all validAtomChar = fa
     (hl : ∀ x, s.getLast? = some x → isWsp x = false) :
     ∃ t, writeWord true s = some t ∧ quotedString opts (t ++ rest) = some (cfg false s, rest) := by
   obtain ⟨parts, hp, hb⟩ := qbody_of_name s hl
-  have hv := quotedString_body parts.flatten s rest hb
+  have hv := quotedString_body parts.flatten s [] rest hb (by simp)
   refine ⟨'"' :: parts.flatten ++ ['"'], by simp [writeWord, h, hp], ?_⟩
   simpa [List.append_assoc] using hv
 
@@ -785,15 +785,139 @@ theorem dotAtom_or_obs (u rest : List Char) (hu : DotAtom u) (hr : StopD rest) :
     · simp [localPart, alt, hdat, hut]
     · simp [domain, alt, hdat, opts, hut]
 
-/-! ## the address, the angle brackets, one mailbox -/
+/-! ## quoted local parts and domain literals -/
+
+/-- the inside of a quoted local part that the grammar keeps verbatim: blanks, qtext, non-ASCII, quoted-pairs -/
+inductive RawQ : List Char → Prop
+  | nil : RawQ []
+  | ch (c : Char) (r : List Char) : (isWsp c || isQtext c || nonAscii c) = true → RawQ r → RawQ (c :: r)
+  | pair (c : Char) (r : List Char) : isText true c = true → isWsp c = false → RawQ r → RawQ ('\\' :: c :: r)
+
+def rawItem : Parser (List Char) :=
+  alt (pmap (fun c => [c]) (sat (fun c => isWsp c || isQtext c || nonAscii c)))
+    (pmap (fun (b, c) => [b, c]) (seq (just '\\') (sat (isText opts.obsQp))))
+
+theorem rawItem_ch (c : Char) (r : List Char) (h : (isWsp c || isQtext c || nonAscii c) = true) :
+    rawItem (c :: r) = some ([c], r) := by
+  simp [rawItem, alt, pmap, sat, h]
+
+theorem rawItem_pair (c : Char) (r : List Char) (h : isText true c = true) :
+    rawItem ('\\' :: c :: r) = some (['\\', c], r) := by
+  have h0 : (isWsp '\\' || isQtext '\\' || nonAscii '\\') = false := by decide
+  simp [rawItem, alt, pmap, sat, h0, seq, just, opts, h]
+
+theorem rawItem_stop (r : List Char) : rawItem ('"' :: r) = none := by
+  have h0 : (isWsp '"' || isQtext '"' || nonAscii '"') = false := by decide
+  simp [rawItem, alt, pmap, sat, h0, seq, just]
+
+theorem many_raw (rest : List Char) : ∀ (inner : List Char), RawQ inner → ∀ (fuel : Nat), inner.length < fuel →
+    ∃ xs, manyF rawItem fuel (inner ++ '"' :: rest) = some (xs, '"' :: rest) ∧ xs.flatten = inner := by
+  intro inner hi
+  induction hi with
+  | nil =>
+    intro fuel hf
+    obtain ⟨k, rfl⟩ : ∃ k, fuel = k + 1 := ⟨fuel - 1, by omega⟩
+    exact ⟨[], manyF_stop _ _ _ (rawItem_stop rest), rfl⟩
+  | ch c r hc _ ih =>
+    intro fuel hf
+    obtain ⟨f, rfl⟩ : ∃ f, fuel = f + 1 := ⟨fuel - 1, by omega⟩
+    obtain ⟨xs, hm, hfl⟩ := ih f (by simp at hf; omega)
+    refine ⟨[c] :: xs, ?_, by simp [hfl]⟩
+    rw [List.cons_append, manyF_step rawItem f _ _ _ (rawItem_ch c (r ++ '"' :: rest) hc) (by simp), hm]
+    rfl
+  | pair c r hc _ _ ih =>
+    intro fuel hf
+    obtain ⟨f, rfl⟩ : ∃ f, fuel = f + 1 := ⟨fuel - 1, by omega⟩
+    obtain ⟨xs, hm, hfl⟩ := ih f (by simp at hf; omega)
+    refine ⟨['\\', c] :: xs, ?_, by simp [hfl]⟩
+    have e : '\\' :: c :: r ++ '"' :: rest = '\\' :: c :: (r ++ '"' :: rest) := by simp
+    rw [e, manyF_step rawItem f _ _ _ (rawItem_pair c (r ++ '"' :: rest) hc) (by simp; omega), hm]
+    rfl
+
+/-- a quoted local part is kept verbatim, quotes and escapes included -/
+theorem quotedStringRaw_read (inner rest : List Char) (hi : RawQ inner) :
+    quotedStringRaw opts ('"' :: (inner ++ '"' :: rest)) = some ('"' :: inner ++ ['"'], rest) := by
+  obtain ⟨xs, hm, hfl⟩ := many_raw rest inner hi ((inner ++ '"' :: rest).length + 1) (by simp; omega)
+  have hmany : many rawItem (inner ++ '"' :: rest) = some (xs, '"' :: rest) := hm
+  have hq : quotedStringRaw opts = pmap (fun ((_, xs), _) => '"' :: xs.flatten ++ ['"']) (seq (seq (just '"') (many rawItem)) (just '"')) := rfl
+  rw [hq]
+  simp [pmap, seq, just, sat, hmany, hfl]
+
+/-- the same text read as an ordinary quoted string (what `phrase` tries on a bare address) -/
+theorem rawq_qbody : ∀ (inner : List Char), RawQ inner → ∃ b s w, inner = b ++ w ∧ QBody b s ∧ (∀ c ∈ w, isWsp c = true) := by
+  intro inner hi
+  induction hi with
+  | nil => exact ⟨[], [], [], rfl, QBody.nil, by simp⟩
+  | ch c r hc _ ih =>
+    obtain ⟨b, s, w, e, hb, hw⟩ := ih
+    by_cases hcw : isWsp c = true
+    · cases hb with
+      | nil => exact ⟨[], [], c :: w, by simp [e], QBody.nil, by intro x hx; rcases List.mem_cons.mp hx with h | h; rw [h]; exact hcw; exact hw x h⟩
+      | unit w0 k c0 b' s' hw0 hk hb' =>
+        refine ⟨(c :: w0) ++ k ++ b', (c :: w0) ++ c0 :: s', w, by simp [e], ?_, hw⟩
+        exact QBody.unit (c :: w0) k c0 b' s' (by intro x hx; rcases List.mem_cons.mp hx with h | h; rw [h]; exact hcw; exact hw0 x h) hk hb'
+    · have hcw' : isWsp c = false := by simpa using hcw
+      have hq : (isQtext c || nonAscii c) = true := by simpa [hcw'] using hc
+      have := QBody.unit [] [c] c b s (by simp) (QUnit.self c hq) hb
+      exact ⟨[c] ++ b, c :: s, w, by simp [e], by simpa using this, hw⟩
+  | pair c r hc hcw _ ih =>
+    obtain ⟨b, s, w, e, hb, hw⟩ := ih
+    have := QBody.unit [] ['\\', c] c b s (by simp) (QUnit.pair c hc hcw) hb
+    exact ⟨['\\', c] ++ b, c :: s, w, by simp [e], by simpa using this, hw⟩
+
+/-- the local parts covered: a dot-atom, or a quoted string kept verbatim -/
+def LocalOk (u : List Char) : Prop := DotAtom u ∨ ∃ inner, u = '"' :: inner ++ ['"'] ∧ RawQ inner
+/-- the domains covered: a dot-atom, or a bracketed literal of `dtext` -/
+def DomainOk (d : List Char) : Prop := DotAtom d ∨ ∃ xs, d = '[' :: xs ++ [']'] ∧ ∀ c ∈ xs, isDtext c = true
 
 theorem at_stop (s : List Char) : StopD ('@' :: s) := Or.inr ⟨'@', s, rfl, by decide, by decide⟩
 theorem gt_stop (s : List Char) : StopD ('>' :: s) := Or.inr ⟨'>', s, rfl, by decide, by decide⟩
 
-theorem addrSpec_dot (u d rest : List Char) (hu : DotAtom u) (hd : DotAtom d) (hr : StopD rest) :
+theorem dotAtom_fail (x : Char) (r : List Char) (hx : isAtext x = false) (hw : isWsp x = false) : dotAtom (x :: r) = none := by
+  have hfws : fws ([] ++ x :: r) = some (none, x :: r) := by
+    have := fws_run [] (x :: r) (by simp) (Or.inr ⟨x, r, rfl, hw⟩)
+    simpa using this
+  simp only [List.nil_append] at hfws
+  have hm := many1_sat_fail isAtext (x :: r) (Or.inr ⟨x, r, rfl, hx⟩)
+  simp [dotAtom, cfws, pmap, seq, hfws, dotAtomText, atext, hm]
+
+theorem local_read (u rest : List Char) (hu : LocalOk u) : localPart opts (u ++ '@' :: rest) = some (u, '@' :: rest) := by
+  rcases hu with hu | ⟨inner, e, hi⟩
+  · exact (dotAtom_or_obs u ('@' :: rest) hu (at_stop _)).1
+  · subst e
+    have h1 : dotAtom ('"' :: (inner ++ '"' :: '@' :: rest)) = none := dotAtom_fail '"' _ (by decide) (by decide)
+    have h2 := quotedStringRaw_read inner ('@' :: rest) hi
+    have e : '"' :: inner ++ ['"'] ++ '@' :: rest = '"' :: (inner ++ '"' :: '@' :: rest) := by simp
+    rw [e]
+    have hl : localPart opts = alt dotAtom (alt (quotedStringRaw opts) (obsLocalPart opts)) := rfl
+    rw [hl]
+    simp only [alt, h1, h2]
+
+theorem domain_read (d rest : List Char) (hd : DomainOk d) (hr : StopD rest) : domain opts (d ++ rest) = some (d, rest) := by
+  rcases hd with hd | ⟨xs, e, hx⟩
+  · exact (dotAtom_or_obs d rest hd hr).2
+  · subst e
+    have h1 : dotAtom ('[' :: (xs ++ ']' :: rest)) = none := dotAtom_fail '[' _ (by decide) (by decide)
+    have h2 : obsDomain ('[' :: (xs ++ ']' :: rest)) = none := by
+      have := atom_fail [] ('[' :: (xs ++ ']' :: rest)) (by simp) (Or.inr ⟨'[', _, rfl, by decide, by decide⟩)
+      simp only [List.nil_append] at this
+      simp [obsDomain, pmap, seq, this]
+    have h3 : many (sat isDtext) (xs ++ ']' :: rest) = some (xs, ']' :: rest) :=
+      many_sat isDtext xs (']' :: rest) hx (Or.inr ⟨']', rest, rfl, by decide⟩)
+    have h4 : domainLiteral ('[' :: (xs ++ ']' :: rest)) = some ('[' :: xs ++ [']'], rest) := by
+      simp [domainLiteral, pmap, seq, just, sat, h3]
+    have e : '[' :: xs ++ [']'] ++ rest = '[' :: (xs ++ ']' :: rest) := by simp
+    rw [e]
+    have hl : domain opts = alt dotAtom (alt obsDomain domainLiteral) := rfl
+    rw [hl]
+    simp only [alt, h1, h2, h4]
+
+/-! ## the address, the angle brackets, one mailbox -/
+
+theorem addrSpec_dot (u d rest : List Char) (hu : LocalOk u) (hd : DomainOk d) (hr : StopD rest) :
     addrSpec opts (u ++ '@' :: (d ++ rest)) = some ((u, d), rest) := by
-  have h1 := (dotAtom_or_obs u ('@' :: (d ++ rest)) hu (at_stop _)).1
-  have h2 := (dotAtom_or_obs d rest hd hr).2
+  have h1 := local_read u (d ++ rest) hu
+  have h2 := domain_read d rest hd hr
   simp only [addrSpec, pmap, seq, h1, just, sat, beq_self_eq_true, if_true, h2, Option.map_some]
 
 theorem uws_run (w rest : List Char) (hw : ∀ c ∈ w, isUWs c = true)
@@ -813,7 +937,7 @@ theorem sep_nows (rest : List Char) (h : Sep rest) : rest = [] ∨ ∃ x r, rest
   · exact Or.inl h
   · exact Or.inr ⟨',', r, h, by decide⟩
 
-theorem angleAddr_shown (u d rest : List Char) (hu : DotAtom u) (hd : DotAtom d) (hr : Sep rest) :
+theorem angleAddr_shown (u d rest : List Char) (hu : LocalOk u) (hd : DomainOk d) (hr : Sep rest) :
     angleAddr opts (' ' :: '<' :: (u ++ '@' :: (d ++ '>' :: rest))) = some ((u, d), rest) := by
   have h0 : uws ([' '] ++ '<' :: (u ++ '@' :: (d ++ '>' :: rest))) = some ((), '<' :: (u ++ '@' :: (d ++ '>' :: rest))) :=
     uws_run [' '] _ (by intro c hc; simp at hc; subst hc; decide) (Or.inr ⟨'<', _, rfl, by decide⟩)
@@ -867,7 +991,7 @@ theorem many_dot_words (rest : List Char) : ∀ (t : List Char), DTail t → ∀
     rfl
 
 /-- a bare address is not a name-addr: the phrase reads the local part, and no `<` follows -/
-theorem nameAddr_bare (u rest : List Char) (hu : DotAtom u) : nameAddr opts (u ++ '@' :: rest) = none := by
+theorem nameAddr_bare_dot (u rest : List Char) (hu : DotAtom u) : nameAddr opts (u ++ '@' :: rest) = none := by
   obtain ⟨a, t, e, hane, ha, ht⟩ := hu.split
   obtain ⟨x0, r0, hx0⟩ := List.exists_cons_of_ne_nil hane
   have hx0a : isAtext x0 = true := ha x0 (by rw [hx0]; simp)
@@ -888,13 +1012,34 @@ theorem nameAddr_bare (u rest : List Char) (hu : DotAtom u) : nameAddr opts (u +
   rw [e']
   simp only [nameAddr, seq, opt, hphrase, hang]
 
-/-- a bare dot-atom address, followed by the end of the text or a comma, is read as a mailbox without a name -/
-theorem oneMailbox_bare (u d rest : List Char) (hu : DotAtom u) (hd : DotAtom d) (hr : Sep rest) :
+/-- a bare address with a quoted local part is not a name-addr either: the phrase reads the quoted string, no `<` follows -/
+theorem nameAddr_bare (u rest : List Char) (hu : LocalOk u) : nameAddr opts (u ++ '@' :: rest) = none := by
+  rcases hu with hu | ⟨inner, e, hi⟩
+  · exact nameAddr_bare_dot u rest hu
+  · subst e
+    obtain ⟨b, s, w, e, hb, hw⟩ := rawq_qbody inner hi
+    have hq := quotedString_body b s w ('@' :: rest) hb hw
+    obtain ⟨xs, hxs⟩ := many_dot_words rest [] DTail.nil (('@' :: rest).length + 1) (by simp)
+    have hmany : many (alt (word opts) (pmap (fun c => [c]) (just '.'))) ('@' :: rest) = some (xs, '@' :: rest) := hxs
+    have e2 : '"' :: inner ++ ['"'] ++ '@' :: rest = '"' :: (b ++ (w ++ '"' :: '@' :: rest)) := by rw [e]; simp
+    rw [e2]
+    have hword : word opts ('"' :: (b ++ (w ++ '"' :: '@' :: rest))) = some (cfg false s, '@' :: rest) := by
+      simp only [word, alt, hq]
+    have hphrase : phrase opts ('"' :: (b ++ (w ++ '"' :: '@' :: rest))) = some (cfg false s ++ xs.flatten, '@' :: rest) := by
+      simp only [phrase, obsPhrase, alt, pmap, seq, hword, hmany, Option.map_some]
+    have hu0 : uws ([] ++ '@' :: rest) = some ((), '@' :: rest) := uws_run [] _ (by simp) (Or.inr ⟨'@', rest, rfl, by decide⟩)
+    simp only [List.nil_append] at hu0
+    have hang : angleAddr opts ('@' :: rest) = none := by
+      simp [angleAddr, padded, pmap, seq, hu0, just, sat]
+    simp only [nameAddr, seq, opt, hphrase, hang]
+
+/-- a bare address, followed by the end of the text or a comma, is read as a mailbox without a name -/
+theorem oneMailbox_bare (u d rest : List Char) (hu : LocalOk u) (hd : DomainOk d) (hr : Sep rest) :
     oneMailbox opts (u ++ '@' :: (d ++ rest)) = some ((none, (u, d)), rest) := by
   simp only [oneMailbox, alt, nameAddr_bare u (d ++ rest) hu, pmap, addrSpec_dot u d rest hu hd (sep_stop rest hr), Option.map_some]
 
 /-- a named mailbox as displayed is read as a mailbox with the same address -/
-theorem oneMailbox_named (n u d rest : List Char) (hne : trim n ≠ []) (hu : DotAtom u) (hd : DotAtom d) (hr : Sep rest) :
+theorem oneMailbox_named (n u d rest : List Char) (hne : trim n ≠ []) (hu : LocalOk u) (hd : DomainOk d) (hr : Sep rest) :
     ∃ t, writeWord true (trim n) = some t ∧
       oneMailbox opts (t ++ ' ' :: '<' :: (u ++ '@' :: (d ++ '>' :: rest))) = some ((some (cfg false (trim n)), (u, d)), rest) := by
   obtain ⟨t, hw, hp⟩ := display_name_read_back n (u ++ '@' :: (d ++ '>' :: rest)) hne
@@ -961,10 +1106,11 @@ theorem writeWord_head (n t : List Char) (hne : trim n ≠ []) (h : writeWord tr
 
 /-! ## a displayed mailbox, a displayed list -/
 
-/-- the addresses the theorems cover: `local@domain` with both sides dot-atoms of the grammar (so: no quoted local
-    part, no domain literal), not starting with a white-space character, and accepted by `Address::new` -/
+/-- the addresses the theorems cover: `local@domain` with the local part a dot-atom of the grammar or a quoted string
+    (kept verbatim), the domain a dot-atom or a bracketed literal, not starting with a white-space character, and
+    accepted by `Address::new` -/
 structure GoodAddr (e : Address.Env) (email : List Char) : Prop where
-  ex : ∃ u d, email = u ++ '@' :: d ∧ DotAtom u ∧ DotAtom d ∧ (∃ x r, u = x :: r ∧ isUWs x = false) ∧
+  ex : ∃ u d, email = u ++ '@' :: d ∧ LocalOk u ∧ DomainOk d ∧ (∃ x r, u = x :: r ∧ isUWs x = false) ∧
     Address.new e u d = .ok ⟨u, d⟩
 
 theorem shown_one (e : Address.Env) (m : MBox) (txt rest : List Char) (hg : GoodAddr e m.email)
@@ -1150,18 +1296,73 @@ theorem dotAtomB_sound (u : List Char) (h : dotAtomB u = true) : DotAtom u := by
   obtain ⟨hsplit, hall, _⟩ := span_spec isAtext u
   exact ⟨⟨u.takeWhile isAtext, u.dropWhile isAtext, hsplit, h.1, hall, dtailB_sound _ _ h.2⟩⟩
 
+theorem rawQB_sound : ∀ (l : List Char), rawQB l = true → RawQ l
+  | [], _ => RawQ.nil
+  | [c], h => by
+    simp only [rawQB] at h
+    split at h
+    · simp at h
+    · simp only [Bool.and_true] at h
+      exact RawQ.ch c [] h RawQ.nil
+  | c :: c2 :: r2, h => by
+    simp only [rawQB] at h
+    split at h
+    · rename_i hc
+      simp only [Bool.and_eq_true, Bool.not_eq_true'] at h
+      subst hc
+      exact RawQ.pair c2 r2 h.1.1 h.1.2 (rawQB_sound r2 h.2)
+    · simp only [Bool.and_eq_true] at h
+      exact RawQ.ch c (c2 :: r2) h.1 (rawQB_sound (c2 :: r2) h.2)
+
+theorem last_split (r : List Char) (x : Char) (h : r.getLast? = some x) : r = r.dropLast ++ [x] := by
+  have hne : r ≠ [] := by intro e; rw [e] at h; simp at h
+  have := List.dropLast_concat_getLast hne
+  rw [List.getLast?_eq_some_getLast hne] at h
+  injection h with h
+  rw [h] at this
+  exact this.symm
+
+theorem quotedLocalB_sound (u : List Char) (h : quotedLocalB u = true) : ∃ inner, u = '"' :: inner ++ ['"'] ∧ RawQ inner := by
+  cases u with
+  | nil => simp [quotedLocalB] at h
+  | cons x r =>
+    simp only [quotedLocalB, Bool.and_eq_true, beq_iff_eq] at h
+    obtain ⟨⟨hx, hl⟩, hr⟩ := h
+    subst hx
+    exact ⟨r.dropLast, by rw [List.cons_append, ← last_split r '"' hl], rawQB_sound _ hr⟩
+
+theorem literalB_sound (d : List Char) (h : literalB d = true) : ∃ xs, d = '[' :: xs ++ [']'] ∧ ∀ c ∈ xs, isDtext c = true := by
+  cases d with
+  | nil => simp [literalB] at h
+  | cons x r =>
+    simp only [literalB, Bool.and_eq_true, beq_iff_eq] at h
+    obtain ⟨⟨hx, hl⟩, hr⟩ := h
+    subst hx
+    exact ⟨r.dropLast, by rw [List.cons_append, ← last_split r ']' hl], List.all_eq_true.mp hr⟩
+
 theorem addrClassB_sound (e : Address.Env) (u d : List Char) (h : addrClassB u d = true)
     (hnew : Address.new e u d = .ok ⟨u, d⟩) : GoodAddr e (u ++ '@' :: d) := by
-  simp only [addrClassB, Bool.and_eq_true] at h
+  simp only [addrClassB, Bool.and_eq_true, Bool.or_eq_true] at h
   obtain ⟨⟨hu, hd⟩, hx⟩ := h
+  have hu' : LocalOk u := by
+    rcases hu with hu | hu
+    · exact Or.inl (dotAtomB_sound _ hu)
+    · exact Or.inr (quotedLocalB_sound _ hu)
+  have hd' : DomainOk d := by
+    rcases hd with hd | hd
+    · exact Or.inl (dotAtomB_sound _ hd)
+    · exact Or.inr (literalB_sound _ hd)
   cases u with
   | nil => simp at hx
   | cons x r =>
     simp only [Bool.not_eq_true'] at hx
-    exact ⟨⟨x :: r, d, rfl, dotAtomB_sound _ hu, dotAtomB_sound _ hd, ⟨x, r, rfl, hx⟩, hnew⟩⟩
+    exact ⟨⟨x :: r, d, rfl, hu', hd', ⟨x, r, rfl, hx⟩, hnew⟩⟩
 
-/-- the class is not empty: `a.b@c.d` under an environment that knows ASCII letters -/
+/-- the class is not empty: `a.b@c.d`, and a quoted local part at an address literal -/
 example : GoodAddr ⟨fun c => isAlpha c || isDigit c, fun _ => none, fun _ => false⟩ ['a', '.', 'b', '@', 'c', '.', 'd'] :=
   addrClassB_sound _ ['a', '.', 'b'] ['c', '.', 'd'] (by decide) (by rfl)
+example : GoodAddr ⟨fun c => isAlpha c || isDigit c, fun _ => none, fun s => s == ['1', '.', '2', '.', '3', '.', '4']⟩
+    ['"', 'a', ' ', '\\', '"', 'b', '"', '@', '[', '1', '.', '2', '.', '3', '.', '4', ']'] :=
+  addrClassB_sound _ ['"', 'a', ' ', '\\', '"', 'b', '"'] ['[', '1', '.', '2', '.', '3', '.', '4', ']'] (by decide) (by rfl)
 
 end LV.PegProof
